@@ -81,6 +81,9 @@ func (c *FnCtx) blockPos(b *ssa.BasicBlock, li *loopInfo) token.Pos {
 	var best token.Pos
 	for blk := range li.body {
 		for _, in := range blk.Instrs {
+			if _, isPhi := in.(*ssa.Phi); isPhi {
+				continue // a phi carries the position of the variable's declaration, which may precede the loop
+			}
 			if p := in.Pos(); p.IsValid() && (best == 0 || p < best) {
 				best = p
 			}
